@@ -178,7 +178,7 @@ def run_tlc(module, cfg, workdir=None, workers=None, timeout=1800, extra=(), env
         res.violation = "deadlock"
     elif "Assumption line" in r.stdout and "is false" in r.stdout:
         res.violation = "assumption"
-    if "Error: The postcondition" in r.stdout or "POSTCONDITION" in r.stdout and "violated" in r.stdout:
+    if "Error: Postcondition" in r.stdout or "Error: The postcondition" in r.stdout:
         res.postcondition_failed = True
     for m in _RE_COV.finditer(r.stdout):
         res.coverage[m.group(1)] = (int(m.group(3)), int(m.group(4)))
